@@ -42,7 +42,9 @@ func RegisterAggregateFunc(methodNm string, fun Aggregate) error {
 }
 
 func Max(data []ArgsType) string {
-	maxNumber := math.SmallestNonzeroFloat64
+	// start below every representable value: SmallestNonzeroFloat64 is positive, so the
+	// maximum of all-negative inputs would otherwise come out as 0
+	maxNumber := -math.MaxFloat64
 	for _, d := range data {
 		f := d.Float()
 		if maxNumber < f {
